@@ -111,6 +111,7 @@ type Engine struct {
 	pureDepth   int
 	invokeDepth int
 	invokeTrace []string
+	topRets     []retRec
 	tmplFuncs   map[int]*Term
 	inputs      []*inputNode
 	byteRefs    map[int]bool
@@ -310,6 +311,24 @@ func (e *Engine) ordinal(fn *ssa.Function, in ssa.Instruction) int {
 		for _, b := range fn.Blocks {
 			for _, i := range b.Instrs {
 				k := fmt.Sprintf("%T", i)
+				// calls are numbered per callee, so that adding or removing an
+				// unrelated call does not renumber the others
+				var cc *ssa.CallCommon
+				switch x := i.(type) {
+				case *ssa.Call:
+					cc = &x.Call
+				case *ssa.Defer:
+					cc = &x.Call
+				}
+				if cc != nil {
+					if cc.IsInvoke() {
+						k += ":" + cc.Method.Name()
+					} else if f, ok := cc.Value.(*ssa.Function); ok {
+						k += ":" + f.String()
+					} else if b, ok := cc.Value.(*ssa.Builtin); ok {
+						k += ":" + b.Name()
+					}
+				}
 				m[i] = cnt[k]
 				cnt[k]++
 			}
@@ -362,6 +381,9 @@ func (e *Engine) execFunction(fn *ssa.Function, args []*Term, bindings []*Term, 
 	}
 	exits, _ := e.runRegion(fr, fr.rpo, map[*ssa.BasicBlock][]edge{fn.Blocks[0]: {{pc: pc, st: s0}}}, nil)
 	_ = exits
+	if caller == nil && !fr.clause {
+		e.topRets = fr.rets
+	}
 	if len(fr.rets) == 0 {
 		return nil, st, False
 	}
